@@ -311,6 +311,7 @@ pub fn member_of(p: &Program, ans: &T) -> Option<bool> {
         match t {
             T::Any(k) => T::V(base + k),
             T::Cons(h, tl) => T::cons(subst(h, base), subst(tl, base)),
+            T::Cmp(k, a, b) => T::cmp(*k, subst(a, base), subst(b, base)),
             other => other.clone(),
         }
     }
